@@ -538,7 +538,10 @@ func (g *gen) onAccept(sc *Script) {
 	case 4: // with a CSeq that matches nothing
 		p = respPiece("r,cs=w", Mut{Op: "set", K: "CSeq", V: "4711"})
 	case 5:
-		p = piece{acts: []Action{{Kind: pickOf(g, "close", "rst")}}, abs: "x"}
+		p = piece{acts: []Action{{Kind: "close"}}, abs: "x"}
+		if g.chance(0.5) { // a reset right after the handshake may already fail the dial: two legitimate outcomes
+			p = piece{acts: []Action{{Kind: "rst"}}, abs: "?"}
+		}
 	default:
 		p = piece{acts: []Action{{Kind: "raw", Payload: []byte(pickOf(g, "\x00\x00", "hello\r\n", "$$$$", "RTSP/1.0")), NoParse: true}}, abs: "?"}
 	}
